@@ -132,7 +132,7 @@ HasComp(nodes, i) ==
   IF i > Len(nodes) THEN FALSE
   ELSE (nodes[i].t = "comp") \/ ("a" \in DOMAIN nodes[i] /\ HasComp(nodes[i].a, 1)) \/ HasComp(nodes, i + 1)
 
-Prog(mode, devs) == [mode |-> mode, devs |-> devs, dyn |-> FALSE, ctx |-> Ctx, comps |-> Lib, page |-> stack[1].kids]
+Prog(mode, devs) == [mode |-> mode, devs |-> devs, dyn |-> FALSE, pyctx |-> FALSE, ctx |-> Ctx, comps |-> Lib, page |-> stack[1].kids]
 
 \* Theorems of the reference semantics, checked on every complete page:
 \*  - evaluation never runs out of fuel and raises only the documented errors;
@@ -149,6 +149,25 @@ AddFill(nodes, i) ==
                   ELSE nd
        IN <<nd2>> \o AddFill(nodes, i + 1)
 
+\* Does the page itself (not the library) read a variable?  (var / field prints, if / for / with,
+\* keyword arguments or fill names given as variables)
+RECURSIVE ReadsVar(_, _)
+KwReads(kw) == \E j \in 1..Len(kw) : kw[j][2].k = "v"
+ReadsVar(nodes, i) ==
+  IF i > Len(nodes) THEN FALSE
+  ELSE LET nd == nodes[i] IN
+       \/ nd.t \in {"var", "fld", "if", "for", "with", "defref"}
+       \/ (nd.t = "comp" /\ KwReads(nd.kw))
+       \/ (nd.t = "fill" /\ nd.ne.k = "v")
+       \/ ("a" \in DOMAIN nd /\ ReadsVar(nd.a, 1))
+       \/ ReadsVar(nodes, i + 1)
+
+Ctx2 == << <<"x", Str("qx")>>, <<"y", Str("")>>, <<"xs", [k |-> "l", v |-> <<"j1", "j2", "j3">>]>>,
+           <<"on", Str("")>>, <<"off", Str("1")>>, <<"w", Str("qw")>>, <<"i", Str("qi")>> >>
+
+\*  - NonInterference (C03): in isolated mode a page that passes nothing (reads no variable itself)
+\*    renders the same whatever the page context holds - output never depends on a variable that
+\*    was not explicitly passed.
 SemanticsTheorems ==
   Complete /\ HasComp(stack[1].kids, 1) =>
     LET p == Prog(Mode, <<>>)
@@ -156,6 +175,8 @@ SemanticsTheorems ==
         q == Run([p EXCEPT !.page = AddFill(p.page, 1)]) IN
     /\ r.err \in {"", "TemplateSyntaxError", "KeyError"}
     /\ (r.zone \/ q.zone \/ (r.out = q.out /\ r.err = q.err))
+    /\ (Mode = "isolated" /\ ~ReadsVar(p.page, 1)) =>
+          LET o == Run([p EXCEPT !.ctx = Ctx2]) IN (r.zone \/ o.zone \/ (r.out = o.out /\ r.err = o.err))
 
 Opts == [format |-> "TXT", charset |-> "UTF-8", openOptions |-> <<"WRITE", "CREATE", "APPEND">>]
 \* the library and page context, written once (initial state)
